@@ -483,4 +483,173 @@ theorem semA_indent (i : Str) (cs X : List Tok) (hcs : ∀ c ∈ cs, c.1 = .COMM
   rw [afterNl_indent i cs X hcs hX]
   simp only [valTexts_afterNl_indent i cs _ hcs]
 
+/-! ### 4. lock-step: the parser on the tokens of a line list = the suffix semantics -/
+
+theorem genR (T0 : List Tok) (s : Option Suf) (t : Tok) (ts : List Tok) (h : T0 = t :: ts)
+    (hb : isBlankStart t.1 = false) (hP : semP T0 = s.map fun r => (r.2.1, r.2.2))
+    (hne : ∀ r, s = some r → r.2.1 ≠ []) : semR T0 = s.map fun r => consPara r.2.1 r.2.2 := by
+  subst h
+  rw [semR_start t ts hb, hP, Option.map_map]
+  cases s with
+  | none => rfl
+  | some r => simp [consPara, hne r rfl]
+
+theorem genA (T0 : List Tok) (s : Option Suf) (hI : HeadNot [.INDENT] T0)
+    (hP : semP T0 = s.map fun r => (r.2.1, r.2.2)) (hv : ∀ r, s = some r → r.1 = []) : semA T0 = s := by
+  rw [semA_stop _ hI, hP, Option.map_map]
+  cases s with
+  | none => rfl
+  | some r =>
+    obtain ⟨a, b, c⟩ := r
+    have := hv _ rfl
+    simp only at this
+    subst this
+    rfl
+
+theorem headNot_valTail (v : Str) (ls : List Str) (fnl : Bool) :
+    HeadNot [.WHITESPACE, .COMMENT] (optTok .VALUE v ++ tailT ls fnl) := by
+  unfold optTok
+  split
+  · rcases tailT_cases ls fnl with ⟨_, _, h⟩ | h <;> rw [h]
+    · exact headNot_nil _
+    · exact headNot_cons _ _ _ (by simp)
+  · exact headNot_cons _ _ _ (by simp)
+
+theorem headNot_indent_tail (ls : List Str) (fnl : Bool) : HeadNot [.INDENT] (tailT ls fnl) := by
+  rcases tailT_cases ls fnl with ⟨_, _, h⟩ | h <;> rw [h]
+  · exact headNot_nil _
+  · exact headNot_cons _ _ _ (by simp)
+
+/-- **the simulation**: on the tokens of any list of LF/CR-free lines, between paragraphs, inside a
+    paragraph, and inside a value after a line end, the parser computes the suffix semantics -/
+theorem step (fnl : Bool) : ∀ ls : List Str, (∀ l ∈ ls, NoNl l) →
+    semR (toks ls fnl) = (sem ls false).map (fun r => consPara r.2.1 r.2.2)
+    ∧ semP (toks ls fnl) = (sem ls false).map (fun r => (r.2.1, r.2.2))
+    ∧ semA (toks ls fnl) = sem ls true := by
+  intro ls
+  induction ls with
+  | nil =>
+    intro _
+    refine ⟨by simp [toks, semR_nil, sem, consPara], by simp [toks, semP_nil, sem], ?_⟩
+    simp [toks, semA_stop [] (headNot_nil _), semP_nil, sem]
+  | cons l ls ih =>
+    intro hall
+    have hn : NoNl l := hall l (by simp)
+    have hls : ∀ x ∈ ls, NoNl x := fun x hx => hall x (by simp [hx])
+    obtain ⟨ihR, ihP, ihA⟩ := ih hls
+    -- inside a value, up to the end of the current line
+    have hE : ∀ v, semE (optTok .VALUE v ++ tailT ls fnl)
+        = (sem ls true).map fun r => (optV v ++ r.1, r.2.1, r.2.2) := by
+      intro v
+      rcases tailT_cases ls fnl with ⟨h1, _, h3⟩ | h3
+      · subst h1; rw [h3, List.append_nil, semE_eof]; simp [sem]
+      · rw [h3, semE_nl, ihA]
+    rw [toks_cons]
+    cases hk : lkind l with
+    | blank =>
+      have hT := lkind_blank l hn hk
+      have hsem : ∀ b, sem (l :: ls) b = (sem ls false).map fun r => ([], [], consPara r.2.1 r.2.2) := by
+        intro b; simp only [sem, hk]
+      have hP : semP (lineT l ++ tailT ls fnl) = (sem (l :: ls) false).map (fun r => (r.2.1, r.2.2)) := by
+        rw [hT, List.nil_append, hsem, Option.map_map]
+        rcases tailT_cases ls fnl with ⟨h1, _, h3⟩ | h3
+        · subst h1; rw [h3, semP_nil]; simp [sem, consPara]
+        · rw [h3, semP_nl, ihR, Option.map_map]; rfl
+      refine ⟨?_, hP, ?_⟩
+      · rw [hT, List.nil_append, hsem, Option.map_map]
+        rcases tailT_cases ls fnl with ⟨h1, _, h3⟩ | h3
+        · subst h1; rw [h3, semR_nil]; simp [sem, consPara]
+        · rw [h3, semR_nl, ihR]
+          cases sem ls false <;> simp [consPara]
+      · rw [hsem true, ← hsem false]
+        apply genA _ _ _ hP (fun r hr => sem_false_vs _ r hr)
+        rw [hT, List.nil_append]; exact headNot_indent_tail ls fnl
+    | comment =>
+      obtain ⟨c, hT⟩ := lkind_comment l hn hk
+      have hsem : ∀ b, sem (l :: ls) b = (sem ls false).map fun r => ([], r.2.1, r.2.2) := by
+        intro b; simp only [sem, hk]
+      have hP : semP (lineT l ++ tailT ls fnl) = (sem (l :: ls) false).map (fun r => (r.2.1, r.2.2)) := by
+        rw [hT, hsem, Option.map_map]
+        rcases tailT_cases ls fnl with ⟨h1, _, h3⟩ | h3
+        · subst h1; rw [h3]; simp [semP_comment_eof, sem]
+        · rw [h3]; simp only [List.cons_append, List.nil_append]; rw [semP_comment_nl, ihP]; rfl
+      refine ⟨?_, hP, ?_⟩
+      · rw [hT, hsem, Option.map_map]
+        rcases tailT_cases ls fnl with ⟨h1, _, h3⟩ | h3
+        · subst h1; rw [h3]; simp [semR_comment_eof, sem, consPara]
+        · rw [h3]; simp only [List.cons_append, List.nil_append]; rw [semR_comment_nl, ihR]; rfl
+      · rw [hsem true, ← hsem false]
+        apply genA _ _ _ hP (fun r hr => sem_false_vs _ r hr)
+        rw [hT]; exact headNot_cons _ _ _ (by simp)
+    | field k v =>
+      obtain ⟨w1, w2, hT⟩ := lkind_field l k v hn hk
+      have hsem : ∀ b, sem (l :: ls) b = (sem ls true).map fun r =>
+          ([], (k, Text.join ['\n'] (optV v ++ r.1)) :: r.2.1, r.2.2) := by
+        intro b; simp only [sem, hk]
+      have hshape : lineT l ++ tailT ls fnl = (.KEY, k) :: (optTok .WHITESPACE w1 ++ (.COLON, [':']) ::
+          (optTok .WHITESPACE w2 ++ (optTok .VALUE v ++ tailT ls fnl))) := by
+        rw [hT]; simp
+      have hP : semP (lineT l ++ tailT ls fnl) = (sem (l :: ls) false).map (fun r => (r.2.1, r.2.2)) := by
+        rw [hshape, semP_field k w1 w2 _ (headNot_valTail v ls fnl), hE, hsem, Option.map_map,
+          Option.map_map]
+        rfl
+      refine ⟨?_, hP, ?_⟩
+      · apply genR _ _ _ _ hshape rfl hP
+        intro r hr
+        rw [hsem] at hr
+        simp only [Option.map_eq_some_iff] at hr
+        obtain ⟨a, _, rfl⟩ := hr
+        simp
+      · rw [hsem true, ← hsem false]
+        apply genA _ _ _ hP (fun r hr => sem_false_vs _ r hr)
+        rw [hshape]; exact headNot_cons _ _ _ (by simp)
+    | cont v =>
+      obtain ⟨hv, i, hT⟩ := lkind_cont l v hn hk
+      have hsemF : sem (l :: ls) false = none := by simp [sem, hk]
+      have hshape : lineT l ++ tailT ls fnl = (.INDENT, i) :: ([] ++ (optTok .VALUE v ++ tailT ls fnl)) := by
+        rw [hT]; simp [optTok, hv]
+      have hP : semP (lineT l ++ tailT ls fnl) = (sem (l :: ls) false).map (fun r => (r.2.1, r.2.2)) := by
+        rw [hsemF, hshape]
+        exact semP_err _ (List.ne_nil_of_mem (paraLoop_indent _ rfl))
+      refine ⟨?_, hP, ?_⟩
+      · exact genR _ _ _ _ hshape rfl hP (fun r hr => by rw [hsemF] at hr; cases hr)
+      · rw [hshape, semA_indent i [] _ (by simp) (headNot_valTail v ls fnl), hE]
+        simp only [sem, hk, ↓reduceIte]
+    | skip =>
+      obtain ⟨i, hT⟩ := lkind_skip l hn hk
+      have hsemF : sem (l :: ls) false = none := by simp [sem, hk]
+      have hsemT : sem (l :: ls) true = sem ls true := by simp [sem, hk]
+      have hE0 : semE (tailT ls fnl) = sem ls true := by
+        have := hE []
+        simp only [optTok, ↓reduceIte, List.nil_append, optV] at this
+        rw [this]
+        cases sem ls true <;> rfl
+      have hX : HeadNot [.WHITESPACE, .COMMENT] (tailT ls fnl) := by
+        have := headNot_valTail [] ls fnl
+        simpa [optTok] using this
+      obtain ⟨cs, hcs, hshape⟩ : ∃ cs : List Tok, (∀ c ∈ cs, c.1 = .COMMENT)
+          ∧ lineT l ++ tailT ls fnl = (.INDENT, i) :: (cs ++ tailT ls fnl) := by
+        rcases hT with hT | ⟨s, hT⟩
+        · exact ⟨[], by simp, by rw [hT]; simp⟩
+        · exact ⟨[(.COMMENT, s)], by simp, by rw [hT]; simp⟩
+      have hP : semP (lineT l ++ tailT ls fnl) = (sem (l :: ls) false).map (fun r => (r.2.1, r.2.2)) := by
+        rw [hsemF, hshape]
+        exact semP_err _ (List.ne_nil_of_mem (paraLoop_indent _ rfl))
+      refine ⟨?_, hP, ?_⟩
+      · exact genR _ _ _ _ hshape rfl hP (fun r hr => by rw [hsemF] at hr; cases hr)
+      · rw [hshape, semA_indent i cs _ hcs hX, hE0, hsemT]
+    | bad =>
+      have hb := lkind_bad l hn hk
+      have hsem : ∀ b, sem (l :: ls) b = none := by intro b; simp [sem, hk]
+      obtain ⟨tail, hle, heq⟩ := lineT_tail l ls fnl hn hls
+      have hbs : BadStart (lineT l ++ tailT ls fnl) := by rw [heq]; exact lex_bad l tail hb hle
+      obtain ⟨t, ts, hshape, hkd⟩ := badStart_head hbs
+      have hP : semP (lineT l ++ tailT ls fnl) = (sem (l :: ls) false).map (fun r => (r.2.1, r.2.2)) := by
+        rw [hsem]; exact semP_err _ (paraLoop_bad _ hbs)
+      refine ⟨?_, hP, ?_⟩
+      · apply genR _ _ _ _ hshape _ hP (fun r hr => by rw [hsem] at hr; cases hr)
+        rcases hkd with e | e | e <;> rw [e] <;> rfl
+      · rw [hsem true, ← hsem false]
+        exact genA _ _ (badStart_headNot_indent hbs) hP (fun r hr => by rw [hsem] at hr; cases hr)
+
 end Deb822Verif.Props.C03Lenient
